@@ -147,7 +147,14 @@ pub fn draw_f64(rng: &mut Rng) -> f64 {
         4 => *rng.pick(&[1e300, -1e300, 1e-300, 1e19, -1e19, 1e18, 3652059.0, -3652059.0, 1e10, 1e-10]),
         5 => f64::from_bits(rng.next_u64()),
         6 => rng.range_i64(-4_000_000, 4_000_000) as f64,
-        7 => rng.range_i64(-4_000_000, 4_000_000) as f64 + 0.5,
+        7 => {
+            if rng.bool() {
+                rng.range_i64(-4_000_000, 4_000_000) as f64 + 0.5
+            } else {
+                // decimals as people write them: 1.16, 0.58, 2.5 ...
+                rng.range_i64(-500, 500) as f64 / 100.0
+            }
+        }
         _ => (rng.range_i64(-2_000_000_000, 2_000_000_000) as f64) / *rng.pick(&[1.0, 3.0, 7.0, 1000.0, 86400.0, 1e6]),
     }
 }
@@ -226,7 +233,33 @@ impl Args {
                 }
             };
             let (date, ts, t, od) = (a.raws[0][0] as i128, a.raws[1][0] as i128, a.raws[2][0] as i128, a.raws[5][0] as i128);
-            match rng.below(8) {
+            match rng.below(10) {
+                8 => {
+                    // leap-day anniversaries: 29 February plus or minus a whole number of years, onto
+                    // leap years, common years and century years alike
+                    let y = *rng.pick(&[4i64, 400, 1896, 1904, 1996, 2000, 2024, 2096, 2396, 9996]);
+                    let day = simcore::civil::days_from_civil(y, 2, 29);
+                    let tod = a.raws[1][0].rem_euclid(DAY);
+                    a.raws[0][0] = day;
+                    a.raws[1][0] = day * DAY + tod;
+                    a.raws[5][0] = day * DAY + tod / 1_000_000 * 1_000_000;
+                    let years = *rng.pick(&[1i64, 4, 8, 12, 96, 100, 104, 200, 400, 1000]) * if rng.bool() { 1 } else { -1 };
+                    if let Some(v) = fit(Ty::IntervalYM, years as i128 * 12) {
+                        a.raws[3][0] = v;
+                    }
+                }
+                9 => {
+                    // whole days (or months) scaled by a "human" factor: a percentage, a simple fraction
+                    let days = rng.range_i64(1, 120) * if rng.bool() { 1 } else { -1 };
+                    a.raws[4][0] = days * DAY;
+                    a.raws[3][0] = rng.range_i64(1, 240) * if rng.bool() { 1 } else { -1 };
+                    let f = match rng.below(3) {
+                        0 => rng.range_i64(1, 300) as f64 / 100.0,
+                        1 => 1.0 / rng.range_i64(1, 60) as f64,
+                        _ => rng.range_i64(1, 400) as f64 / *rng.pick(&[3.0, 7.0, 12.0, 24.0, 60.0, 1000.0]),
+                    };
+                    a.f_bits = (if rng.chance(1, 4) { -f } else { f }).to_bits();
+                }
                 0 => {
                     // time + interval lands on a day boundary
                     let k = rng.range_i64(-3, 3) as i128;
@@ -1564,6 +1597,81 @@ fn gen_text_plain(rng: &mut Rng, ty: Ty, pic: &str) -> String {
 fn small_text(rng: &mut Rng) -> String {
     let n = rng.usize_below(6);
     (0..n).map(|_| rng.pick(&SMALL_ALPHABET).to_string()).collect()
+}
+
+// ---------------------------------------------------------------------------
+// A small fixed grid on top of the seeded calls: every function that scales or shifts by
+// an f64 (`*_f64`, `*_days`) with whole days / months / hours 1..120 of either sign and the
+// factors people write — 0.01 .. 3.00 in hundredths and 1/1 .. 1/60. Products that land
+// just below a whole number are where rounding code goes wrong, and random f64 draws do
+// not find them. Grid calls have call indices GRID_BASE.. and are otherwise ordinary calls.
+// ---------------------------------------------------------------------------
+
+pub const GRID_BASE: u64 = 1 << 40;
+const GRID_DAYS: u64 = 120;
+const GRID_FACTORS: u64 = 360;
+
+fn grid_funcs(tables: &Tables) -> Vec<&'static str> {
+    tables.funcs.iter().map(|(n, _)| *n).filter(|n| n.contains("f64") || n.contains("days")).collect()
+}
+
+pub fn grid_len(tables: &Tables) -> u64 {
+    grid_funcs(tables).len() as u64 * GRID_DAYS * GRID_FACTORS * 2
+}
+
+pub fn grid_call(tables: &Tables, j: u64) -> Call {
+    const DAY: i64 = 86_400_000_000;
+    let fs = grid_funcs(tables);
+    let per = GRID_DAYS * GRID_FACTORS * 2;
+    let name = fs[(j / per) as usize % fs.len().max(1)];
+    let r = j % per;
+    let sign: i64 = if r % 2 == 0 { 1 } else { -1 };
+    let r = r / 2;
+    let d = 1 + (r % GRID_DAYS) as i64;
+    let k = 1 + r / GRID_DAYS;
+    let f = if k <= 300 { k as f64 / 100.0 } else { 1.0 / (k - 300) as f64 };
+    let day0 = simcore::civil::days_from_civil(2024, 1, 1) + d * 3;
+    let tod = (d % 24) * 3_600_000_000;
+    let args = Args {
+        raws: [
+            [day0, day0 + 1],
+            [day0 * DAY + tod, day0 * DAY],
+            [tod, 0],
+            [sign * d, 12],
+            [sign * d * DAY, DAY],
+            [day0 * DAY + tod, day0 * DAY],
+        ],
+        i: d as i32,
+        f_bits: f.to_bits(),
+        u: [1, 1, 1, 1, 1],
+        y: 2024,
+    };
+    Call::Func { name: name.to_string(), args }
+}
+
+/// The call with index `idx`: seeded below GRID_BASE, a grid call from there on.
+pub fn call_for_index(seed: u64, idx: u64, tables: &Tables, rng: &mut Rng) -> Call {
+    let _ = seed;
+    if idx >= GRID_BASE {
+        grid_call(tables, idx - GRID_BASE)
+    } else {
+        gen_call(rng, tables)
+    }
+}
+
+/// The index a worker (`index` of `of`) visits after `idx`: its slice of 0..n_calls, then its
+/// slice of the grid.
+pub fn next_index(idx: u64, of: u64, index: u64, n_calls: u64) -> u64 {
+    let n = idx + of;
+    if n >= n_calls && n < GRID_BASE {
+        let mut j = GRID_BASE;
+        while j % of != index % of {
+            j += 1;
+        }
+        j
+    } else {
+        n
+    }
 }
 
 pub fn gen_call(rng: &mut Rng, tables: &Tables) -> Call {
